@@ -594,9 +594,9 @@ func (r *c21Runner) line(line []byte) {
 func runC21(c *core.Ctx) error {
 	r := &c21Runner{c: c, seen: map[string]bool{}}
 	invs := c21Laws + " Emit EmitMeta"
-	to := 8 * time.Minute
+	to := 30 * time.Minute
 	if c.Thorough() {
-		to = 25 * time.Minute
+		to = 45 * time.Minute
 	}
 	qk := "c_Kinds == " + c20TLAStrs(c21QuasiKinds, "{", "}") + "\n"
 	ak := "c_Kinds == " + c20TLAStrs(c20AllKinds, "{", "}") + "\n"
